@@ -17,6 +17,8 @@ Ord ==
                      IF nobs'.arg.i \in Rng(rord) THEN rord ELSE Append(rord, nobs'.arg.i)
                [] a = "wait" -> SelectSeq(rord, LAMBDA i : i \in ReadySet /\ i \in reg')
                [] a \in {"unreg", "fini"} -> SelectSeq(rord, LAMBDA i : i \in reg')
+               \* the writer opening a FIFO wakes its reader: the kernel links it right away
+               [] a = "add" /\ nobs'.arg.k = "f" -> Append(rord, nobs'.arg.tok)
                [] OTHER -> rord
   /\ word' = CASE a = "wait" -> IF ReadySet = {} THEN word ELSE SelectSeq(rord, LAMBDA i : i \in wait')
                [] a = "next" -> IF word = <<>> THEN word ELSE Tail(word)
@@ -39,6 +41,9 @@ SliceQ == \/ AllK({"h"}) /\ SumTo(sent, nin) <= 1
           \/ AllK({"s", "c", "f"}) /\ nin <= 1 /\ SumTo(sent, nin) <= 2
           \/ AllK({"l", "o", "c"}) /\ (\A i \in 1..nin : ik[i] = "c" => i > 1) /\ SumTo(sent, nin) <= 1
 BoundQ == ntok <= MaxTok /\ SliceQ
+\* thorough: harness and socket-pair inputs mixed; connected sockets and FIFOs mixed; a listener with what it accepts
+SliceT == AllK({"h", "s"}) \/ AllK({"c", "f"}) \/ AllK({"l", "o", "c"})
+BoundT == Bound /\ SliceT
 Skel  == <<att, ik, reg, word, cur,
            [i \in 1..nin |-> <<Len(wire[i]), [k \in DOMAIN buf[i] |-> buf[i][k][1]], eof[i], conn[i]>>],
            DOMAIN tab, IF err > 0 THEN 1 ELSE err, def # Zero>>
